@@ -299,7 +299,31 @@ func (w *Walk) block(b *ssa.BasicBlock, from int, env Env, raw map[*ssa.Phi]ssa.
 			}
 		}
 		switch t := in.(type) {
+		case *ssa.UnOp:
+			// a whole-struct load of a private struct cell: the loaded value carries what the
+			// path knows about the cell's fields
+			if al, ok := t.X.(*ssa.Alloc); ok && t.Op == token.MUL && privateStruct(al) {
+				env = copyFieldCells(env, al, t, structFieldCount(al.Type()))
+			}
 		case *ssa.Store:
+			if fa, ok := t.Addr.(*ssa.FieldAddr); ok {
+				if al, isAl := fa.X.(*ssa.Alloc); isAl && privateStruct(al) {
+					v := w.eval(t.Val, env)
+					ne := make(Env, len(env)+1)
+					for k, x := range env {
+						ne[k] = x
+					}
+					if v.Kind != 0 {
+						ne[fieldCellOf(al, fa.Field)] = v
+					} else {
+						delete(ne, fieldCellOf(al, fa.Field))
+					}
+					env = ne
+				}
+			}
+			if al, ok := t.Addr.(*ssa.Alloc); ok && privateStruct(al) {
+				env = copyFieldCells(env, t.Val, al, structFieldCount(al.Type()))
+			}
 			// a private local cell (named result, variable of a function with defers): remember
 			// what this path stored, so that a later load of the cell - in another block - is decided
 			if al, ok := t.Addr.(*ssa.Alloc); ok && privateCell(al) {
@@ -397,6 +421,11 @@ func (w *Walk) evalD(v ssa.Value, env Env, d int) Val {
 			return r
 		}
 		return unknown
+	case *ssa.Field:
+		if val, has := env[fieldCellOf(x.X, x.Field)]; has && val.Kind != 0 {
+			return val
+		}
+		return unknown
 	case *ssa.Parameter, *ssa.Call, *ssa.Extract:
 		if r, ok := env[x]; ok {
 			return r
@@ -423,6 +452,13 @@ func (w *Walk) evalD(v ssa.Value, env Env, d int) Val {
 			}
 		}
 		if x.Op == token.MUL {
+			if fa, ok := x.X.(*ssa.FieldAddr); ok {
+				if al, isAl := fa.X.(*ssa.Alloc); isAl && privateStruct(al) {
+					if val, has := env[fieldCellOf(al, fa.Field)]; has && val.Kind != 0 {
+						return val
+					}
+				}
+			}
 			if u := unspill(x); u != ssa.Value(x) {
 				return w.evalD(u, env, d+1)
 			}
@@ -696,6 +732,16 @@ func (w *Walk) returnTo(fr *frame, ret *ssa.Return, env Env, st PathState, raw m
 		} else {
 			delete(nenv, call)
 		}
+		// a struct result: what the callee's path knows about its fields
+		if n := structFieldCount(ret.Results[0].Type()); n > 0 {
+			for i := 0; i < n; i++ {
+				if v, has := env[fieldCellOf(ret.Results[0], i)]; has && v.Kind != 0 {
+					nenv[fieldCellOf(call, i)] = v
+				} else {
+					delete(nenv, fieldCellOf(call, i))
+				}
+			}
+		}
 	} else if refs := call.Referrers(); refs != nil {
 		for _, ref := range *refs {
 			if ex, ok := ref.(*ssa.Extract); ok && ex.Index < len(ret.Results) {
@@ -836,4 +882,112 @@ func phiFree(v ssa.Value, d int) bool {
 		return phiFree(x.X, d+1) && phiFree(x.Y, d+1)
 	}
 	return false
+}
+
+// ---- fields of private struct cells ----
+
+// fieldCell is the environment key for "field #idx of base" (base: a private struct Alloc, a
+// struct value loaded from one, or a call that returned a struct).
+type fieldCell struct {
+	base ssa.Value
+	idx  int
+}
+
+func (f *fieldCell) Name() string                  { return fmt.Sprintf("%s.#%d", f.base.Name(), f.idx) }
+func (f *fieldCell) String() string                { return f.Name() }
+func (f *fieldCell) Type() types.Type              { return types.Typ[types.Invalid] }
+func (f *fieldCell) Parent() *ssa.Function         { return nil }
+func (f *fieldCell) Referrers() *[]ssa.Instruction { return nil }
+func (f *fieldCell) Pos() token.Pos                { return token.NoPos }
+
+type fieldCellKey struct {
+	base ssa.Value
+	idx  int
+}
+
+var fieldCells = map[fieldCellKey]*fieldCell{}
+
+func fieldCellOf(base ssa.Value, idx int) *fieldCell {
+	k := fieldCellKey{base, idx}
+	if c, ok := fieldCells[k]; ok {
+		return c
+	}
+	c := &fieldCell{base, idx}
+	fieldCells[k] = c
+	return c
+}
+
+func structFieldCount(t types.Type) int {
+	if st, ok := derefType(t).Underlying().(*types.Struct); ok {
+		return st.NumFields()
+	}
+	return 0
+}
+
+// copyFieldCells returns env with what is known about the fields of `from` recorded for `to`
+// (and what was known about `to` forgotten).
+func copyFieldCells(env Env, from, to ssa.Value, n int) Env {
+	if n == 0 {
+		return env
+	}
+	ne := make(Env, len(env)+n)
+	for k, x := range env {
+		ne[k] = x
+	}
+	for i := 0; i < n; i++ {
+		if v, has := env[fieldCellOf(from, i)]; has && v.Kind != 0 {
+			ne[fieldCellOf(to, i)] = v
+		} else {
+			delete(ne, fieldCellOf(to, i))
+		}
+	}
+	return ne
+}
+
+var privateStructCache = map[*ssa.Alloc]bool{}
+
+// privateStruct: a local struct variable that is only ever accessed through direct field
+// loads/stores and whole-value loads/stores (no address of it or of a field goes anywhere).
+func privateStruct(al *ssa.Alloc) bool {
+	if v, ok := privateStructCache[al]; ok {
+		return v
+	}
+	_, ok := derefType(al.Type()).Underlying().(*types.Struct)
+	if refs := al.Referrers(); refs != nil && ok {
+		for _, ref := range *refs {
+			switch x := ref.(type) {
+			case *ssa.FieldAddr:
+				if frefs := x.Referrers(); frefs != nil {
+					for _, r2 := range *frefs {
+						switch y := r2.(type) {
+						case *ssa.Store:
+							if y.Addr != ssa.Value(x) {
+								ok = false
+							}
+						case *ssa.UnOp:
+							if y.Op != token.MUL {
+								ok = false
+							}
+						case *ssa.DebugRef:
+						default:
+							ok = false
+						}
+					}
+				}
+			case *ssa.Store:
+				if x.Addr != ssa.Value(al) {
+					ok = false
+				}
+			case *ssa.UnOp:
+				if x.Op != token.MUL {
+					ok = false
+				}
+			case *ssa.DebugRef:
+			default:
+				ok = false
+			}
+		}
+	}
+	privateStructCache[al] = ok
+	return ok
 }
